@@ -621,6 +621,8 @@ func (b *Bridge) Ops(s *HState) []engine.Op {
 	}
 	if on("ColdStorage2") {
 		ops = append(ops, engine.OpN("ColdStorage", "ethereum", "hub", "eth"))
+		// ... and one whose second asset is not listed on the target chain (eth has no bsc row): the proposal fails as a whole
+		ops = append(ops, engine.OpN("ColdStorage", "bsc", "hub", "eth"))
 	}
 	return ops
 }
@@ -1217,7 +1219,11 @@ func execCases(cfg BridgeCfg, ec engine.Config, extra ...string) []MultiCase {
 	gl.Relist = []int{0, 2}
 	gl.Tokens = stdTokens(18)
 	gl.Amounts, gl.Fees = []int64{1000}, []int64{7}
-	gl.Seeds = [][]engine.Op{append(append([]engine.Op{}, seedObserved...), engine.OpN("Send", "ethereum", "hub", 0, 0, 0), engine.OpN("ReqBatch", "ethereum", "hub"))}
+	gl.Fees = []int64{7, 50}
+	gl.Seeds = [][]engine.Op{append(append([]engine.Op{}, seedObserved...), engine.OpN("Send", "ethereum", "hub", 0, 0, 0), engine.OpN("ReqBatch", "ethereum", "hub")),
+		// two pending batches of the token (the second pays the higher fee): executing the newer one releases the older one
+		append(append([]engine.Op{}, seedObserved...), engine.OpN("Send", "ethereum", "hub", 0, 0, 0), engine.OpN("ReqBatch", "ethereum", "hub"),
+			engine.OpN("Send", "ethereum", "hub", 0, 0, 1), engine.OpN("ReqBatch", "ethereum", "hub"))}
 	gl.Ops = opsSet(append([]string{"Next", "Relist", "Exec", "ExtAdvance", "Deposit"}, extra...)...)
 	gl.SendChains = []string{"ethereum"}
 	gl.SendDenoms = []string{"hub", "eth"} // deposits of the other token move the observed height on
@@ -1440,7 +1446,22 @@ func init() {
 		ecg := ec
 		ecg.MaxDepth = 3
 		ecg.Deadline = ec.Deadline / 3
+		// a token list that governance stored in another order than that of the ids (the list is ordered state: lookups take
+		// the first matching row)
+		ro := cfg
+		ro.Ops = opsSet("Next", "Send", "Deposit")
+		ro.Seeds = [][]engine.Op{{}}
+		ro.GenesisMod = func(g *hub.Genesis) {
+			l := g.Hub.TokenInfos.TokenInfos
+			for i, t := range l {
+				t.Id = uint64(len(l) - i)
+			}
+		}
+		ecro := ec
+		ecro.MaxDepth = 2
+		ecro.Deadline = ec.Deadline / 4
 		return []MultiCase{{Name: "bridge histories, oracle prices from genesis", Spec: NewBridge(cfg), Cfg: ec}, {Name: "holders adopted, no prices", Spec: NewBridge(ho), Cfg: ech},
+			{Name: "token list stored in descending id order", Spec: NewBridge(ro), Cfg: ecro},
 			{Name: "a lagging validator, rotated delegate keys", Spec: NewBridge(lr), Cfg: ec},
 			pcase("outgoing transfer timeout 0", func(p *mhubtypes.Params) { p.OutgoingTxTimeout = 0 }),
 			pcase("no chains (bridge paused)", func(p *mhubtypes.Params) { p.Chains = []string{} }),
@@ -1515,10 +1536,20 @@ func init() {
 				}
 			}
 		}
+		// a 6-decimals token: a withdrawal of less than one external unit still has a place in the pool - ranked by its
+		// fee like every other one - although the amount it moves converts to 0 units
+		du := cfg
+		du.Tokens = stdTokens(6)
+		du.Ops = opsSet("Next", "Send", "ReqBatch")
+		du.SendChains = []string{"ethereum"}
+		du.SendDenoms = []string{"hub"}
+		du.Amounts = []int64{600_000_000_000, 5_000_000_000_000}
+		du.Fees = []int64{1_000_000_000_000, 5_000_000_000_000}
 		ecg := ec
 		ecg.MaxDepth = 3
 		ecg.Deadline = ec.Deadline / 3
-		return []MultiCase{{Name: "pools and permissionless requests", Spec: NewBridge(cfg), Cfg: ec}, {Name: "batches timing out and being rebuilt", Spec: NewBridge(to), Cfg: ect},
+		return []MultiCase{{Name: "pools and permissionless requests", Spec: NewBridge(cfg), Cfg: ec},
+			{Name: "6-decimals token, withdrawals of less than one external unit", Spec: NewBridge(du), Cfg: ecs}, {Name: "batches timing out and being rebuilt", Spec: NewBridge(to), Cfg: ect},
 			{Name: "started from a genesis file with two pending Minter batches (sequence counter 7)", Spec: NewBridge(gi), Cfg: ecg},
 			{Name: "two withdrawals of one transaction, one cancelled", Spec: NewBridge(sh), Cfg: ecs},
 			{Name: "a pool of more than 100 transfers of one token, amounts differing by six orders of magnitude", Spec: NewBridge(big), Cfg: ecb2}}, bridgeAssumptions(cfg)
@@ -1542,6 +1573,14 @@ func init() {
 			// the refund of an unbatched transfer is due when the block after its creation has an odd height (no automatic
 			// batching) and starts after the timeout: both block parities are explored from the start
 			dl.Seeds = [][]engine.Op{{}, {engine.OpN("Next", 5)}, pend, append(append([]engine.Op{}, pend...), engine.OpN("Relist", 0))}
+			// two transfers wait in Minter's pool when the token leaves the originating chain's list: the one that came from
+			// ethereum (its refund will fail) pays the higher fee, so the expiry sweep meets it first, and a hub user's
+			// (its refund succeeds) - at both block parities
+			dl.DepFees = []int64{dl.DepFees[0], 9}
+			// (a pool entry survives only until the next even block: both are created in one even block, the block after it
+			// starts after the timeout, and the token is taken off the list in that block)
+			two := []engine.Op{engine.OpN("Deposit", "ethereum", "hub", "minter", 0, 1), engine.OpN("Send", "minter", "hub", 0, 0, 0), engine.OpN("Next", 3601), engine.OpN("Relist", 0)}
+			dl.Seeds = append(dl.Seeds, two, append([]engine.Op{engine.OpN("Next", 5)}, two...))
 			ecd := ec
 			ecd.Deadline = ec.Deadline / 2
 			cases := []MultiCase{{Name: "bridge histories", Spec: NewBridge(cfg), Cfg: ec},
